@@ -34,6 +34,8 @@ def main():
     except ValueError:
         seed = 0
     mod = importlib.import_module("props.%s" % prop.lower())
+    import shared_props
+    shared_props.extend(mod, prop)
     ctx = Ctx(prop, args.tier, seed)
 
     if args.replay:
